@@ -955,8 +955,12 @@ where
                 .unwrap();
             // Entry update deferred to file close, for performance.
         }
-        data.open_files[file_idx].entry.attributes.set_archive(true);
-        data.open_files[file_idx].entry.mtime = self.time_source.get_timestamp();
+        if written > 0 {
+            // a call that stored nothing (an empty buffer, or a file that has
+            // already reached the largest size) has not modified the file
+            data.open_files[file_idx].entry.attributes.set_archive(true);
+            data.open_files[file_idx].entry.mtime = self.time_source.get_timestamp();
+        }
         if bytes_to_write < buffer.len() {
             // The file has reached the largest size the format allows. What
             // fitted below that limit has been written (as when the volume
